@@ -118,7 +118,18 @@ func main() {
 		fatal(err)
 	}
 	var rws []rewrite
-	rws = append(rws, mapOrderRewrites()...)
+	// the typed map-range pass owns every map iteration of its packages; the exact-text rewrites below
+	// it are the fallback for a name the pass could not provide (e.g. a tree it cannot type-check)
+	typedContents, typedApplied := mapRangePass()
+	provided := map[string]bool{}
+	for _, a := range typedApplied {
+		provided[a] = true
+	}
+	for _, rw := range mapOrderRewrites() {
+		if !provided[rw.name] {
+			rws = append(rws, rw)
+		}
+	}
 	rws = append(rws, crashHookRewrites()...)
 	// hang check: waiting for a progress bar that is still running after it was told to complete
 	// would block forever (nothing else completes it); report it instead of blocking
@@ -126,6 +137,13 @@ func main() {
 		name: "hangcheck:pbar", file: "pkg/pbar/bar.go", imp: true,
 		edits: [][2]string{{"\t\tb.b.Wait()", "\t\tverifrt.BarWait(b.b.IsRunning, b.b.Wait)"}},
 		count: []int{2},
+	})
+	// the number of candidate tables a push offers per negotiation request: a harness can lower it so
+	// that multi-request table negotiations are explored with two or three tables instead of 257
+	rws = append(rws, rewrite{
+		name: "batchsize:push-tables", file: "pkg/api/client/receive_pack_session.go", imp: true,
+		edits: [][2]string{{"for i := 0; i < 256; i++ {", "for i := 0; i < verifrt.PushTableBatch(); i++ {"}},
+		count: []int{1},
 	})
 	switch variant {
 	case "plain":
@@ -141,8 +159,8 @@ func main() {
 		}
 	}
 	replace := map[string]string{}
-	contents := map[string]string{}
-	var applied []string
+	contents := typedContents
+	applied := typedApplied
 	for _, rw := range rws {
 		src, ok := contents[rw.file]
 		if !ok {
